@@ -48,7 +48,10 @@ func Assert(b bool, msg string) {
 
 var Failures []string
 
-func Cover(label string) {}
+// Covers records the labels reached natively (compared with the engine's path).
+var Covers []string
+
+func Cover(label string) { Covers = append(Covers, label) }
 
 // Lazy returns an arbitrary object of type T (lazily initialised under the
 // symbolic executor; rebuilt from the model natively).
